@@ -5,6 +5,10 @@ HERE = os.path.dirname(os.path.dirname(os.path.abspath(__file__)))
 
 # id -> (technique, level text, level note, design section)
 CHECKS = {
+ "C04": ("deviation-bounded exhaustive enumeration of grammar derivations (every tag x parameter x slot x enum item x block form x 6 versions) against a reference interpreter over the frozen grammar, plus field-by-field match of the loaded model",
+         "Every element kind, parameter position, optional slot (once and twice), enum item and pair of slots of the frozen A2L 1.7.1 grammar, under all six ASAP2 versions, and every single deviation of the element under test (parameter deleted / wrong lexical class, extra token, block form flipped, wrong end tag, unknown block, required element missing): strict and non-strict load of the real parser compared with an independent table-driven recogniser and with the values the document holds (read back through Debug of the model). Exhaustive for 0/1 (thorough: 2) deviations from the carrier document of each element.",
+         "the frozen grammar is the reference (its equality with the repository DSL is reported); documents with more than two simultaneous deviations are not explored; string/number value classes are covered by C01/C02",
+         "DESIGN.md 5/C04"),
  "C12": ("exhaustive grid enumeration (datatype x conversion x coefficient grid x limit placement) against a closed-form range",
          "Every grid point of 11 data types x all conversion kinds x a two-signed coefficient grid (1.2k conversions quick, 8k thorough) x 5 placements of the declared limits, for every limit-checked element kind (incl. the five STD_AXIS positions), loaded and checked by the real code and compared with the closed-form range. Exhaustive over the grid.",
          "verdicts inside the tolerance band (between the range and 10x the documented 1e-6 tolerance) are not examined; grid points whose range or an intermediate product overflows f64 are skipped and counted; RAT_FUNC b=0 excluded",
